@@ -8,11 +8,22 @@ import Proofs.Frame
 namespace Hive
 variable {env : Env}
 
+/-- no instruction can ask for a `ServicingTrip`: it is only built by the default transition of
+    `DispatchTrip` (from the request found in the sim) -/
+def Act.notServicing : Act → Bool
+  | .servicingTrip _ _ _ => false
+  | _ => true
+
+/-- the activities a transition can be asked to enter: anything an instruction can name, or the
+    default terminal state of the current activity -/
+def Plannable (env : Env) (s : Sim) (v : VehicleId) (prev next : Act) : Prop :=
+  next.notServicing = true ∨ defaultNext env s v prev = .ok next
+
 /-- a state predicate preserved by honest transitions and by default updates -/
 structure StepInv (env : Env) (I : Sim → Prop) : Prop where
   applied : ∀ (s : Sim) (a : List (VehicleId × Instr)), I s → I { s with applied := a }
   transition : ∀ {w w2 : World} {v : VehicleId} {veh : Vehicle} {next : Act},
-    w.sim.WF → I w.sim → w.sim.vehicle? v = some veh →
+    w.sim.WF → I w.sim → w.sim.vehicle? v = some veh → Plannable env w.sim v veh.act next →
     transition env w v veh.act next = .ok w2 → I w2.sim
   update : ∀ {w w2 : World} {v : VehicleId} {veh : Vehicle},
     w.sim.WF → I w.sim → w.sim.vehicle? v = some veh →
@@ -20,22 +31,22 @@ structure StepInv (env : Env) (I : Sim → Prop) : Prop where
 
 /-- the plans are for pairwise distinct vehicles and `prev` is each vehicle's real activity -/
 def Honest (s : Sim) (ps : List (VehicleId × Act × Act)) : Prop :=
-  (ps.map (·.1)).Nodup ∧ ∀ p ∈ ps, ∃ veh, s.vehicle? p.1 = some veh ∧ veh.act = p.2.1
+  (ps.map (·.1)).Nodup ∧ ∀ p ∈ ps, (∃ veh, s.vehicle? p.1 = some veh ∧ veh.act = p.2.1) ∧ p.2.2.notServicing = true
 
 theorem wf_applied {s : Sim} (a : List (VehicleId × Instr)) (h : s.WF) : ({ s with applied := a } : Sim).WF :=
   ⟨h.veh, h.stn, h.base, h.req, h.plugs⟩
 
 theorem planInstr_spec {s : Sim} {i : Instr} {v : VehicleId} {prev next : Act}
     (h : planInstr env s i = some (.ok (v, prev, next))) :
-    v = i.vehicle ∧ ∃ veh, s.vehicle? v = some veh ∧ veh.act = prev := by
+    v = i.vehicle ∧ (∃ veh, s.vehicle? v = some veh ∧ veh.act = prev) ∧ next.notServicing = true := by
   cases i <;> simp only [planInstr] at h
   case idle v' | chargeStation v' _ _ | chargeBase v' _ _ | reserveBase v' _ | outOfService v' =>
     cases hv : s.vehicle? v' with
     | none => simp [hv] at h
     | some veh =>
       simp [hv] at h
-      obtain ⟨rfl, rfl, _⟩ := h
-      exact ⟨rfl, veh, hv, rfl⟩
+      obtain ⟨rfl, rfl, rfl⟩ := h
+      exact ⟨rfl, ⟨veh, hv, rfl⟩, rfl⟩
   case dispatchPooling v' =>
     cases hv : s.vehicle? v' <;> simp [hv] at h
   case dispatchTrip v' r =>
@@ -46,8 +57,8 @@ theorem planInstr_spec {s : Sim} {i : Instr} {v : VehicleId} {prev next : Act}
       | none => simp [hv, hr] at h
       | some req =>
         simp [hv, hr] at h
-        obtain ⟨rfl, rfl, _⟩ := h
-        exact ⟨rfl, veh, hv, rfl⟩
+        obtain ⟨rfl, rfl, rfl⟩ := h
+        exact ⟨rfl, ⟨veh, hv, rfl⟩, rfl⟩
   case dispatchStation v' sid c =>
     cases hv : s.vehicle? v' with
     | none => simp [hv] at h
@@ -56,8 +67,8 @@ theorem planInstr_spec {s : Sim} {i : Instr} {v : VehicleId} {prev next : Act}
       | none => simp [hv, hr] at h
       | some st =>
         simp [hv, hr] at h
-        obtain ⟨rfl, rfl, _⟩ := h
-        exact ⟨rfl, veh, hv, rfl⟩
+        obtain ⟨rfl, rfl, rfl⟩ := h
+        exact ⟨rfl, ⟨veh, hv, rfl⟩, rfl⟩
   case dispatchBase v' b =>
     cases hv : s.vehicle? v' with
     | none => simp [hv] at h
@@ -66,8 +77,8 @@ theorem planInstr_spec {s : Sim} {i : Instr} {v : VehicleId} {prev next : Act}
       | none => simp [hv, hr] at h
       | some base =>
         simp [hv, hr] at h
-        obtain ⟨rfl, rfl, _⟩ := h
-        exact ⟨rfl, veh, hv, rfl⟩
+        obtain ⟨rfl, rfl, rfl⟩ := h
+        exact ⟨rfl, ⟨veh, hv, rfl⟩, rfl⟩
   case reposition v' l =>
     cases hv : s.vehicle? v' with
     | none => simp [hv] at h
@@ -81,15 +92,15 @@ theorem planInstr_spec {s : Sim} {i : Instr} {v : VehicleId} {prev next : Act}
         | none => simp [hl] at h
         | some dst =>
           simp [hl] at h
-          obtain ⟨rfl, rfl, _⟩ := h
-          exact ⟨rfl, veh, hv, rfl⟩
+          obtain ⟨rfl, rfl, rfl⟩ := h
+          exact ⟨rfl, ⟨veh, hv, rfl⟩, rfl⟩
 
 /-- what pass 1 returns: the state with a new `applied` field and honest plans -/
 theorem planAll_spec {s s' : Sim} {is : List Instr} {ps : List (VehicleId × Act × Act)}
     (hn : (is.map Instr.vehicle).Nodup) (h : planAll env s is = some (s', ps)) :
     (∃ a, s' = { s with applied := a }) ∧
     (ps.map (·.1)).Sublist (is.map Instr.vehicle) ∧
-    ∀ p ∈ ps, ∃ veh, s.vehicle? p.1 = some veh ∧ veh.act = p.2.1 := by
+    ∀ p ∈ ps, (∃ veh, s.vehicle? p.1 = some veh ∧ veh.act = p.2.1) ∧ p.2.2.notServicing = true := by
   induction is generalizing s s' ps with
   | nil =>
     simp only [planAll] at h
@@ -107,16 +118,16 @@ theorem planAll_spec {s s' : Sim} {is : List Instr} {ps : List (VehicleId × Act
         cases h
         obtain ⟨⟨a, ha⟩, hsub, hhon⟩ := ih hn.2 hrec
         obtain ⟨v, prev, next⟩ := p
-        obtain ⟨hv, veh, hveh, hact⟩ := planInstr_spec hp
+        obtain ⟨hv, ⟨veh, hveh, hact⟩, hns⟩ := planInstr_spec hp
         refine ⟨⟨a, by rw [ha]⟩, ?_, ?_⟩
         · simp only [List.map_cons]
           rw [hv]
           exact List.Sublist.cons_cons _ hsub
         · intro q hq
           rcases List.mem_cons.mp hq with rfl | hq'
-          · exact ⟨veh, hveh, hact⟩
-          · obtain ⟨veh', h1, h2⟩ := hhon q hq'
-            exact ⟨veh', by simpa [Sim.vehicle?] using h1, h2⟩
+          · exact ⟨⟨veh, hveh, hact⟩, hns⟩
+          · obtain ⟨⟨veh', h1, h2⟩, h3⟩ := hhon q hq'
+            exact ⟨⟨veh', by simpa [Sim.vehicle?] using h1, h2⟩, h3⟩
     · obtain ⟨ha, hsub, hhon⟩ := ih hn.2 h
       exact ⟨ha, List.Sublist.cons _ hsub, hhon⟩
 
@@ -131,26 +142,26 @@ theorem applyPlans_inv {I : Sim → Prop} (hI : StepInv env I) {ps : List (Vehic
     simp only [applyPlans]
     obtain ⟨hnd, hall⟩ := hh
     simp only [List.map_cons, List.nodup_cons] at hnd
-    have hrest : ∀ q ∈ ps, ∃ veh, w.sim.vehicle? q.1 = some veh ∧ veh.act = q.2.1 :=
+    have hrest : ∀ q ∈ ps, (∃ veh, w.sim.vehicle? q.1 = some veh ∧ veh.act = q.2.1) ∧ q.2.2.notServicing = true :=
       fun q hq => hall q (List.mem_cons_of_mem _ hq)
     split
     · next w' htr =>
-      obtain ⟨veh, hveh, hact⟩ := hall (v, prev, next) (List.mem_cons_self)
-      simp only at hveh hact
+      obtain ⟨⟨veh, hveh, hact⟩, hns⟩ := hall (v, prev, next) (List.mem_cons_self)
+      simp only at hveh hact hns
       subst hact
-      have hi' := hI.transition hwf hi hveh htr
+      have hi' := hI.transition hwf hi hveh (Or.inl hns) htr
       have hid := transition_sameIds hwf htr
       have hfr := transition_frame hwf htr
       have hh' : Honest w'.sim ps := by
         refine ⟨hnd.2, ?_⟩
         intro q hq
-        obtain ⟨vq, h1, h2⟩ := hrest q hq
+        obtain ⟨⟨vq, h1, h2⟩, h3⟩ := hrest q hq
         have hne : q.1 ≠ v := by
           intro heq
           apply hnd.1
           rw [← heq]
           exact List.mem_map_of_mem (f := fun x : VehicleId × Act × Act => x.1) hq
-        exact ⟨vq, by rw [hfr.others q.1 hne]; exact h1, h2⟩
+        exact ⟨⟨vq, by rw [hfr.others q.1 hne]; exact h1, h2⟩, h3⟩
       obtain ⟨r1, r2, r3⟩ := ih (hid.wf hwf) hi' hh'
       exact ⟨r1, r2, hid.trans r3⟩
     · exact ih hwf hi ⟨hnd.2, hrest⟩
@@ -167,8 +178,8 @@ theorem applyInstructions_inv {I : Sim → Prop} (hI : StepInv env I) {w w' : Wo
     obtain ⟨⟨a, rfl⟩, hsub, hhon⟩ := planAll_spec hn hplan
     have hh : Honest ({ w with sim := { w.sim with applied := a } } : World).sim ps :=
       ⟨List.Nodup.sublist hsub hn, fun p hp => by
-        obtain ⟨veh, h1, h2⟩ := hhon p hp
-        exact ⟨veh, by simpa [Sim.vehicle?] using h1, h2⟩⟩
+        obtain ⟨⟨veh, h1, h2⟩, h3⟩ := hhon p hp
+        exact ⟨⟨veh, by simpa [Sim.vehicle?] using h1, h2⟩, h3⟩⟩
     have := applyPlans_inv hI (w := { w with sim := { w.sim with applied := a } })
       (wf_applied a hwf) (hI.applied _ a hi) hh
     exact ⟨this.1, this.2.1⟩
